@@ -703,8 +703,9 @@ class NUMERIC(FieldType):
     def unprepare_number(self, x):
         dc = self.decimal_places
         if dc:
-            s = str(x)
-            x = Decimal(s[:-dc] + "." + s[-dc:])
+            # Shift the decimal point (slicing the digits went wrong for
+            # magnitudes below 10 ** dc and for negative numbers)
+            x = Decimal(x).scaleb(-dc)
         return x
 
     def to_column_value(self, x):
